@@ -48,6 +48,13 @@ fam('stack', depth=3, maxstack=5,
     alphabet=[PUSH(INT, i(7)), PUSH(STR, s('zz')), DROP(1), DROP(2), DROP(0), DUP(1), DUP(2), DUP(3), ('SWAP',), ('DIG', 2), ('DUG', 2), ('DIG', 0), ('DUG', 1),
               DIP(1, DROP(1)), DIP(2, PUSH(NAT, i(3))), DIP(0, PUSH(BOOL, T_)), DIP(1, ('SWAP',)), ('CAST', INT), ('RENAME',)])
 
+# every stack instruction also *inside* DIP bodies (pytezos implements DIP by moving a `protected` mark over one shared list)
+_inner = [DROP(1), DUP(1), DUP(2), ('SWAP',), ('DIG', 1), ('DIG', 2), ('DUG', 1), ('DUG', 2), PUSH(NAT, i(9)), ('PAIR', 2), ('UNPAIR', 2), ('CAR',), DIP(1, DROP(1)), DIP(1, ('DUG', 1)),
+          DIP(1, ('DIG', 1)), DROP(2), ('UNIT',)]
+fam('dipstack', depth=2, maxstack=6,
+    inits=[(S(INT, i(1)), S(NAT, i(2)), S(STR, s('a')), S(BOOL, T_), S(P(INT, NAT), p(i(3), i(4))))],
+    alphabet=[DIP(n, x) for n in (1, 2, 3) for x in _inner] + [DIP(1, ('DUG', 1), ('DIG', 2)), DIP(2, DUP(2), ('DUG', 2))])
+
 fam('adt', depth=3, maxstack=4,
     inits=[(S(INT, i(1)), S(NAT, i(2)), S(STR, s('a')), S(BOOL, T_)), (S(P(INT, P(NAT, STR)), p(i(3), p(i(4), s('x')))),),
            (S(OR(INT, STR), left(i(5))),), (S(OR(INT, STR), right(s('r'))),)],
